@@ -174,13 +174,13 @@ Definition jws_run (input : list Z) : list Z :=
                 match js_take_optbytes r2 with
                 | Some (det, [kalg; vbit]) =>
                     if negb (ojson_plain pl && forallb env_plain es) then [0] else
-                    match expand_payload det pl with
-                    | None => [0]
-                    | Some payload =>
-                        1 :: flat_map (fun e =>
-                          match js_dec tab payload (e_header nat e) (e_protected nat e) (e_signature nat e) with
+                    match decode_general nat (t_view tab) (t_parse tab) pl es det with
+                    | Ok items =>
+                        1 :: flat_map (fun r =>
+                          match r with
                           | Ok it => js_item_obs tab it (if kalg <? 0 then None else Some kalg) (bz vbit)
-                          | _ => [0] end) es
+                          | _ => [0] end) items
+                    | _ => [0]
                     end
                 | _ => ERR_DECODE
                 end
